@@ -77,11 +77,14 @@ def direct(t):
     w = W()
     mon = TrackerShadow(w)
     try:
-        tr = LostSegmentTracker()
+        # two tracker objects alive at the same time, operations interleaved (two destination handlers in one process)
+        trackers = [LostSegmentTracker(), LostSegmentTracker()]
+        two = t.choose(2, "two trackers") == 1
         N = [12, 6, 24, 40][t.choose(4, "N")]
         n_ops = 4 + t.choose(28, "n ops")
         sig = []
         for i in range(n_ops):
+            tr = trackers[t.choose(2, "which tracker") if two else 0]
             op = t.weighted([6, 6, 2, 1], "op")
             items = list(tr.lost_segments.items())
             if op == 0:
@@ -139,7 +142,7 @@ def direct(t):
                 desc = "reset"
                 tr.reset()
             sig.append(desc.split("(")[0])
-            w.log.append(f"#{i} {desc} -> {list(tr.lost_segments.items())}")
+            w.log.append(f"#{i} T{trackers.index(tr)} {desc} -> {list(tr.lost_segments.items())}")
         r = RunResult()
         r.violations = w.violations
         judged = sum(v for k, v in w.probes.items() if "judged" in k)
